@@ -100,7 +100,7 @@ theorem linearizeWith_frag {ext : Bool} {m : Model (Ext K)} {b : BoundsMap (Ext 
     fun ρ v hv => normalize_eval_frag hm.obj.1 hnorm hv
   have hode : DefinedE objExp := fun ρ => by obtain ⟨v, hv⟩ := hm.objDefined ρ; exact ⟨v, hoev ρ v hv⟩
   have A : Spec (SrcC ext d) objExp (objReq m) (initState m b d) obj s2 :=
-    hspec objExp hoe.1 _ _ _ _ ⟨hinv0.st, hoe.2, hode⟩ hlin
+    hspec objExp hoe.1 _ _ _ _ ⟨hinv0.st, hoe.2, finE_of_definedE objExp hoe.1 hode⟩ hlin
   have hinv2 : LoopInv ext d s2 := by
     refine ⟨A.inv, fun x hx => A.scopeMono hx, ?_⟩
     intro r hr; rw [A.rows] at hr; simp [initState] at hr
